@@ -62,6 +62,10 @@ type proxyProc struct {
 	addr   string
 }
 
+// heartbeat settings of the proxy under test: frequent heartbeats heal (and hide) a stalled backend connection within
+// their interval, so one of the runs uses slow ones
+var hostileHeartbeat, hostileIdle = "300ms", "3s"
+
 func startProxy(bin string, c *fakecql.Cluster, ip string, maxVersion string) (*proxyProc, error) {
 	l, err := net.Listen("tcp", "127.0.0.1:0")
 	if err != nil {
@@ -71,7 +75,7 @@ func startProxy(bin string, c *fakecql.Cluster, ip string, maxVersion string) (*
 	l.Close()
 	p := &proxyProc{stderr: &bytes.Buffer{}, done: make(chan struct{}), addr: addr}
 	p.cmd = exec.Command(bin, "--contact-points", ip, "--port", fmt.Sprint(c.Port), "--bind", addr,
-		"--max-protocol-version", maxVersion, "--heartbeat-interval", "300ms", "--idle-timeout", "3s", "--connect-timeout", "2s")
+		"--max-protocol-version", maxVersion, "--heartbeat-interval", hostileHeartbeat, "--idle-timeout", hostileIdle, "--connect-timeout", "2s")
 	p.cmd.Stderr = &lockedWriter{w: p.stderr, mu: &p.mu}
 	p.cmd.Stdout = io.Discard
 	if err := p.cmd.Start(); err != nil {
@@ -421,6 +425,15 @@ func hostileScript(rnd *rand.Rand, mu *sync.Mutex) func(a *fakecql.Attempt) fake
 		switch class {
 		case "b_unknown_stream":
 			return fakecql.Outcome{Kind: fakecql.RawReply, Raw: rawFrame(ver, 0, st+1000, 0x08, []byte{0, 0, 0, 1}, 4)}
+		case "b_unsolicited_result":
+			// the request is answered, and a second RESULT arrives on a stream nobody is waiting on (before or after it):
+			// afterwards the backend connection is idle with that frame consumed
+			extra := rawFrame(ver, 0, st+1000, 0x08, []byte{0, 0, 0, 1}, 4)
+			ok := rawFrame(ver, 0, st, 0x08, []byte{0, 0, 0, 1}, 4)
+			if rnd.Intn(2) == 0 {
+				return fakecql.Outcome{Kind: fakecql.RawReply, Raw: append(ok, extra...)}
+			}
+			return fakecql.Outcome{Kind: fakecql.RawReply, Raw: append(extra, ok...)}
 		case "b_wrong_opcode":
 			op := []byte{0x02, 0x06, 0x03, 0x10, 0x0E, 0x07, 0x01}[rnd.Intn(7)]
 			return fakecql.Outcome{Kind: fakecql.RawReply, Raw: rawFrame(ver, 0, st, op, nil, 0)}
@@ -486,13 +499,26 @@ func canary(addr string, v primitive.ProtocolVersion, n int) error {
 	if err != nil || r.Kind != "ok" {
 		return fmt.Errorf("system.local not answered: %v %v", err, r)
 	}
-	tok := fmt.Sprintf("tokcanary%d;", n)
+	// two forwarded queries: the round robin sends them to different backend hosts, so the host the offender's request
+	// went to is among them
+	for q := 0; q < 2; q++ {
+		if err := canaryForwarded(c, v, n, q); err != nil {
+			return err
+		}
+	}
+	return nil
+}
+
+func canaryForwarded(c *cqlclient.Client, v primitive.ProtocolVersion, n, q int) error {
+	tok := fmt.Sprintf("tokcanary%dq%d;", n, q)
 	// a backend connection that was torn down by garbage is re-established after the reconnect delay (>= 2 s with
 	// the binary's default policy): the canary's forwarded query may fail until then, but must succeed again
 	deadline := time.Now().Add(8 * time.Second)
 	var last string
+	var r *cqlclient.Recv
+	var err error
 	for try := 0; time.Now().Before(deadline); try++ {
-		r, err = c.Roundtrip(frame.NewFrame(v, int16(3+try), &message.Query{Query: fmt.Sprintf("SELECT * FROM ks.t WHERE k = '%s'", tok), Options: &message.QueryOptions{Consistency: primitive.ConsistencyLevelOne}}), tok, "canary", 4*time.Second)
+		r, err = c.Roundtrip(frame.NewFrame(v, int16(3+100*q+try), &message.Query{Query: fmt.Sprintf("SELECT * FROM ks.t WHERE k = '%s'", tok), Options: &message.QueryOptions{Consistency: primitive.ConsistencyLevelOne}}), tok, "canary", 4*time.Second)
 		if err == nil && r.Kind == "ok" && r.Token == tok {
 			return nil
 		}
@@ -516,6 +542,8 @@ func init() {
 		out := fs.String("out", "-", "result")
 		maxv := fs.String("maxversion", "v4", "--max-protocol-version of the proxy")
 		reps := fs.Int("reps", 2, "concrete representatives per class occurrence")
+		fs.StringVar(&hostileHeartbeat, "heartbeat", "300ms", "--heartbeat-interval of the proxy")
+		fs.StringVar(&hostileIdle, "idle", "3s", "--idle-timeout of the proxy")
 		_ = fs.Parse(args)
 		res := &hostileResult{PerClass: map[string]int{}, Outcomes: map[string]int{}, MaxVer: *maxv}
 		t := tracer.New()
@@ -634,6 +662,14 @@ func init() {
 							continue
 						}
 						res.Findings = append(res.Findings, hostileFinding{Class: class, Seq: hs.Seq, Kind: "canary-failed", Detail: err.Error()})
+						// a wedged proxy would fail every later canary too: start over with a fresh process so that the
+						// following events are judged on their own
+						p.stop()
+						res.Restarts++
+						var e error
+						if p, e = startProxy(*bin, c, ips[0], *maxv); e != nil {
+							return e
+						}
 					}
 				}
 			}
